@@ -86,7 +86,8 @@ def trace_of(rec: dict, run: dict) -> dict:
         "id": rec["id"], "usage": rec.get("usage", "none"), "cmd": rec["cmd"], "feu": rec["feu"], "nofail": rec["nofail"], "skipfail": rec["skipfail"],
         "byte_limit": plan["byte_limit"] or 0, "char_limit": plan["char_limit"] or 0,
         "files": [{"V": [{k: v[k] for k in ("id", "kind", "suppressed", "viaNoqa", "warning", "fixable")} for v in of["V"]],
-                   "nbytes": pf["nbytes"], "nchars": pf["nchars"], "notree": bool(of["notree"])}
+                   "nbytes": pf["nbytes"], "nchars": pf["nchars"], "notree": bool(of["notree"]),
+                   "byte_limit": pf.get("byte_limit", plan["byte_limit"] or 0)}
                   for pf, of in zip(plan["files"], run["facts"])],
         "events": events,
     }
@@ -190,7 +191,7 @@ def s2c_clause(prop: str, rec: dict, o: dict, first: Optional[dict]) -> Optional
 
 # ------------------------------------------------------------------------------------------ the check driver
 def signature(rec: dict, o: dict, clause: str) -> dict:
-    return {"clause": clause, "entry": ENTRY_KIND[o["entry"]], "cmd": rec["cmd"], "feu": rec["feu"], "usage": rec.get("usage", "none"), "vlimit": rec.get("vlimit", 0),
+    return {"clause": clause, "entry": ENTRY_KIND[o["entry"]], "cmd": rec["cmd"], "feu": rec["feu"], "usage": rec.get("usage", "none"), "vlimit": rec.get("vlimit", 0), "limsrc": rec.get("limsrc", "root"),
             "vlimit": rec.get("vlimit", 0),
             "shape": shape(rec), "limkind": rec["limkind"], "cfg": f"{rec['cfgsrc']}/{rec['cfgitem']}",
             "runaway": rec["runaway"], "predicted": bool(rec.get("diff")) and predicted(rec, o),
